@@ -16,7 +16,10 @@ en = Engine(c.key.split('::')[0], contract=c, registry={k: v for k, v in registr
 qual = c.key.split('::')[1]
 if '.' in qual and qual.split('.')[-2] in T.classes: en.current_class = qual.split('.')[-2]
 A = c.args(en, names)
-st = State(env=dict((n, A[n]) for n in names), ghost=dict(c.ghost0(A)) if hasattr(c, 'ghost0') else {})
+_st0 = State(env={}, ghost={})
+for _n, _kind in getattr(c, 'mutable', {}).items():
+    _st0, _ref = en.new_ref(_st0, _kind, A[_n]); A[_n + '@0'] = A[_n]; A[_n] = _ref
+st = State(heap=_st0.heap, env=dict((n, A[n]) for n in names), ghost=dict(c.ghost0(A)) if hasattr(c, 'ghost0') else {})
 for k, v in getattr(c, 'extra_env', lambda en, A: {})(en, A).items(): st.env[k] = v
 pre = [g for _, g in c.pre(A, st)] + ([g for _, g in c.pre_body(A, st)] if hasattr(c, 'pre_body') else [])
 st = st.assume(*pre)
